@@ -157,6 +157,10 @@ def decide(q, timeout=20, prefer="z3"):
     else:
         q.status = "unknown"
         q.backend = "+".join("%s:%s" % v for v in verdicts)
+        if os.environ.get("VERIF_DUMP_UNKNOWN"):
+            import re as _re
+            with open(os.path.join(os.environ["VERIF_DUMP_UNKNOWN"], _re.sub(r"[^A-Za-z0-9_.-]", "_", q.name)[-120:] + ".%08x.smt2" % (hash(q.text) & 0xffffffff)), "w") as f:
+                f.write(q.text)
     q.secs = total
     return q
 
